@@ -207,6 +207,22 @@ Record meta := {
   shank_key : Z                        (* <version>_shank, -1 = key absent *)
 }.
 
+(* init_params: channel bookkeeping, both from the sns* (saved) counts, not the acq* (acquired) ones:
+     self.napch = int(self.sr.meta["snsApLfSy"][0])       number of AP channels in the file
+     self.idxsyncch = int(self.sr.meta["snsApLfSy"][0])   first sync column of the file *)
+Definition napch (m : meta) : Z := sns0 m.
+Definition idxsyncch (m : meta) : Z := sns0 m.
+
+(* chunk2save of _ind2save = np.c_[chunk (filtered, columns [0, napch) of the file),
+                                   chunk_sync (picked, columns [idxsyncch, nSavedChans) of the file)]:
+   column c of chunk2save is (filtered?, column of the AP file) *)
+Definition col_source (m : meta) (c : Z) : bool * Z :=
+  if c <? napch m then (true, c) else (false, idxsyncch m + (c - napch m)).
+Definition chunk2save_width (m : meta) : Z := napch m + (nsaved m - idxsyncch m).
+
+(* _split2shanks: chunk[:, chns] -- where every column of one .lf.bin comes from *)
+Definition lf_col_sources (m : meta) (chns : list Z) : list (bool * Z) := map (col_source m) chns.
+
 (* _writemetadata_lf for one shank (version 21 or 24) *)
 Definition write_lf_meta (version : Z) (m : meta) (chns : list Z) (lf_bytes sh : Z) : meta :=
   let n := Z.of_nat (length chns) in
